@@ -254,7 +254,11 @@ func (c *cmWrap) Connection(ctx context.Context, addr, dialer string) (*grpc.Cli
 			return nil, func() {}, errors.New("scripted dial refusal")
 		}
 	}
-	return c.real.Connection(ctx, addr, dialer)
+	conn, done, err := c.real.Connection(ctx, addr, dialer)
+	if err != nil && ts != nil {
+		c.e.record(ts, "refused", 1)
+	}
+	return conn, done, err
 }
 
 type wrappedStream struct {
@@ -370,7 +374,33 @@ func runTrial(r *vlib.Run, trial int, rng *rand.Rand) {
 	gpb.RegisterGNMIServer(srv, &server{e: e})
 	go srv.Serve(e.lis)
 	defer srv.Stop()
+	// Dial-level failures inside the real connection.Manager: the first few dials
+	// of an address fail after a short delay, so that targets sharing the
+	// address join the pending attempt and fail together.
+	var dialMu sync.Mutex
+	dialFailLeft := map[string]int{}
+	dialDelay := time.Duration(5+rng.Intn(16)) * time.Millisecond
+	for i := 0; i < nT; i++ {
+		a := fmt.Sprintf("addr%d", i)
+		if shareAddr {
+			a = "shared"
+		}
+		if _, ok := dialFailLeft[a]; !ok {
+			dialFailLeft[a] = []int{0, 0, 1, 2}[rng.Intn(4)]
+		}
+	}
 	dial := func(ctx context.Context, target string, opts ...grpc.DialOption) (*grpc.ClientConn, error) {
+		dialMu.Lock()
+		fail := dialFailLeft[target] > 0
+		if fail {
+			dialFailLeft[target]--
+		}
+		dialMu.Unlock()
+		if fail {
+			r.Count("dial_level_failures", 1)
+			time.Sleep(dialDelay)
+			return nil, errors.New("scripted dial failure")
+		}
 		opts = append(opts,
 			grpc.WithContextDialer(func(ctx context.Context, _ string) (net.Conn, error) { return e.lis.DialContext(ctx) }),
 			grpc.WithTransportCredentials(insecure.NewCredentials()),
@@ -389,10 +419,31 @@ func runTrial(r *vlib.Run, trial int, rng *rand.Rand) {
 	if err != nil {
 		panic(err)
 	}
+	// Callbacks are user code and may be slow: in a third of the trials Reset
+	// (and rarely Update) take a while, which stretches the time Remove holds
+	// the manager's lock and opens windows for the other targets' timers.
+	slowCB := rng.Intn(3) == 0
+	var cbMu sync.Mutex
+	cbRng := rand.New(rand.NewSource(rng.Int63()))
+	maybeSlow := func(kind string) {
+		if !slowCB {
+			return
+		}
+		cbMu.Lock()
+		x, d := cbRng.Float64(), time.Duration(cbRng.Intn(160))*time.Millisecond
+		cbMu.Unlock()
+		switch {
+		case kind == "reset" && x < 0.4:
+			time.Sleep(d)
+		case kind == "update" && x < 0.03:
+			time.Sleep(d / 10)
+		}
+	}
 	cb := func(kind string) func(string) {
 		return func(name string) {
 			if ts := e.targets[name]; ts != nil {
 				e.record(ts, kind, 0)
+				maybeSlow(kind)
 			}
 		}
 	}
@@ -403,6 +454,7 @@ func runTrial(r *vlib.Run, trial int, rng *rand.Rand) {
 		Update: func(name string, n *gpb.Notification) {
 			if ts := e.targets[name]; ts != nil {
 				e.record(ts, "update", n.GetTimestamp())
+				maybeSlow("update")
 			}
 		},
 		ConnectError:      func(name string, err error) { cb("connecterror")(name) },
@@ -422,6 +474,29 @@ func runTrial(r *vlib.Run, trial int, rng *rand.Rand) {
 		return fmt.Sprintf("addr%d", i)
 	}
 	const grace = 40 * time.Second // 1000 x RetryMaxDelay
+	// Add / Remove / Reconnect must return: a call still pending after the grace
+	// period is a violation when the goroutine dump shows it inside the manager.
+	var hungOnce sync.Once
+	callBounded := func(what string, f func() error) (error, bool) {
+		done := make(chan error, 1)
+		go func() { done <- f() }()
+		select {
+		case err := <-done:
+			return err, true
+		case <-time.After(grace):
+			hungOnce.Do(func() {
+				buf := make([]byte, 1<<19)
+				n := runtime.Stack(buf, true)
+				dump := string(buf[:n])
+				if strings.Contains(dump, "manager.(*Manager)."+what) {
+					r.Violation("script", trial, strings.ToLower(what)+"-never-returns", fmt.Sprintf("%s did not return within %v; the goroutine dump shows it inside the manager", what, grace), map[string]interface{}{"goroutines": dump})
+				} else {
+					r.Inconclusive(what + " did not return within the grace period and the dump does not attribute it")
+				}
+			})
+			return nil, false
+		}
+	}
 	var wg sync.WaitGroup
 	stuck := make(chan string, nT)
 	for i, name := range names {
@@ -438,7 +513,9 @@ func runTrial(r *vlib.Run, trial int, rng *rand.Rand) {
 			ts.mu.Unlock()
 			for k := 0; k < 4; k++ {
 				time.Sleep(15 * time.Millisecond)
-				m.Reconnect(name)
+				if _, ok := callBounded("Reconnect", func() error { return m.Reconnect(name) }); !ok {
+					return
+				}
 			}
 			ts.mu.Lock()
 			if len(ts.events) != n {
@@ -450,7 +527,11 @@ func runTrial(r *vlib.Run, trial int, rng *rand.Rand) {
 		}
 		add := func() bool {
 			e.record(ts, "add", 0)
-			if err := m.Add(name, tgt, req); err != nil {
+			err, returned := callBounded("Add", func() error { return m.Add(name, tgt, req) })
+			if !returned {
+				return false
+			}
+			if err != nil {
 				ts.mu.Lock()
 				ts.viol = append(ts.viol, fmt.Sprintf("%s: Add of an unmanaged target failed: %v", name, err))
 				ts.violSig = append(ts.violSig, "add-refused")
@@ -459,8 +540,14 @@ func runTrial(r *vlib.Run, trial int, rng *rand.Rand) {
 			}
 			return true
 		}
+		hung := false
 		remove := func(what string) {
-			if err := m.Remove(name); err != nil {
+			err, returned := callBounded("Remove", func() error { return m.Remove(name) })
+			if !returned {
+				hung = true
+				return
+			}
+			if err != nil {
 				ts.mu.Lock()
 				ts.viol = append(ts.viol, fmt.Sprintf("%s: Remove of a managed target failed: %v", name, err))
 				ts.violSig = append(ts.violSig, "remove-refused")
@@ -476,7 +563,10 @@ func runTrial(r *vlib.Run, trial int, rng *rand.Rand) {
 			res := make(chan error, 2)
 			for k := 0; k < 2; k++ {
 				go func() {
-					err := m.Remove(name)
+					err, returned := callBounded("Remove", func() error { return m.Remove(name) })
+					if !returned {
+						err = errors.New("Remove never returned")
+					}
 					if err == nil {
 						e.record(ts, "remove-returned", 0)
 					}
@@ -535,7 +625,9 @@ func runTrial(r *vlib.Run, trial int, rng *rand.Rand) {
 				case "reconnect", "remove", "double-remove":
 					waitFor(ts, grace, func() bool { return ts.opened > j+1 || ts.ended[j] || int(atomic.LoadInt32(&ts.sentN)) >= s.ActionAt })
 					if s.Action == "reconnect" {
-						m.Reconnect(name)
+						if _, ok := callBounded("Reconnect", func() error { return m.Reconnect(name) }); !ok {
+							return
+						}
 						r.Count("forced_reconnects", 1)
 					} else if s.Action == "double-remove" {
 						r.Count("double_removes", 1)
@@ -545,7 +637,7 @@ func runTrial(r *vlib.Run, trial int, rng *rand.Rand) {
 					} else {
 						remove(fmt.Sprintf("mid-stream, session %d at message %d", j, s.ActionAt))
 						r.Count("removes_mid_stream", 1)
-						if !add() {
+						if hung || !add() {
 							return
 						}
 					}
@@ -555,7 +647,7 @@ func runTrial(r *vlib.Run, trial int, rng *rand.Rand) {
 					})
 					remove(fmt.Sprintf("during backoff after session %d", j))
 					r.Count("removes_in_backoff", 1)
-					if !add() {
+					if hung || !add() {
 						return
 					}
 				}
@@ -568,10 +660,10 @@ func runTrial(r *vlib.Run, trial int, rng *rand.Rand) {
 	}
 	wg.Wait()
 	// Unknown names.
-	if err := m.Remove("nobody"); err == nil {
+	if err, returned := callBounded("Remove", func() error { return m.Remove("nobody") }); returned && err == nil {
 		r.Violation("script", trial, "remove-unknown-accepted", "Remove of an unknown target returned nil", nil)
 	}
-	if err := m.Reconnect("nobody"); err == nil {
+	if err, returned := callBounded("Reconnect", func() error { return m.Reconnect("nobody") }); returned && err == nil {
 		r.Violation("script", trial, "reconnect-unknown-accepted", "Reconnect of an unknown target returned nil", nil)
 	}
 	r.Eval(1)
